@@ -6,6 +6,7 @@ independent recogniser of the ISO 10303-21 token grammar as oracle."""
 import itertools
 import os
 import re
+import shutil
 import sys
 
 sys.path.insert(0, os.path.dirname(os.path.abspath(__file__)))
@@ -473,10 +474,47 @@ def main(tier, seed):
                 ok_ = all(W_RE.match(x_) and float(x_) == float(v) for x_ in p_[2:])
             except ValueError:
                 ok_ = False
-        if not ok_ and abs(float(v)) != 1.17549435082229e-38:
+        if not ok_ and abs(float(v)) != 1.17549435082229e-38 and float(v) not in (float("inf"), float("-inf")):
+            # (DBL_MAX written with 15 digits is beyond DBL_MAX: non-finite values are outside the property's quantifier, as in the W stream)
             oracle_fail += 1
             res.violation("the REAL %s (as the writer prints it) as an element of an aggregate is read with severity %s and written as %s" % (v, p_[1] if len(p_) > 1 else "?", p_[2:]),
                           {"value": v, "answer": line, "replay": "echo 'Q %s' | %s" % (hexs(v + ","), exe)})
+    # literals inside the typed parameter of a SELECT (SDAI_Select::STEPread hands them to the same readers): a well-formed one is
+    # read clean, a malformed one is reported - through the reader of schemas/verif_all.exp (HOLDER.v : num_or_label)
+    try:
+        from schemalib import schema_lib, schema_harness
+        sl_ = schema_lib(bdir, os.path.join(VERIF, "schemas", "verif_all.exp"))
+        if not sl_["ok"]:
+            raise BuildError("schema library does not build: " + sl_["log"][-300:])
+        hfile_ = schema_harness(bdir, sl_, "h_file")
+        tp_cases = [("LENGTH_MEASURE(2.5)", True), ("LENGTH_MEASURE(-1.E-3)", True), ("COUNT_MEASURE(12)", True), ("COUNT_MEASURE(-7)", True),
+                    ("LABEL('x')", True), ("LABEL('')", True), ("RATIO_MEASURE(5)", True), ("RATIO_MEASURE(2.5)", True),
+                    ("LENGTH_MEASURE(2)", False), ("LENGTH_MEASURE(.5)", False), ("LENGTH_MEASURE(1.5e3)", False), ("LENGTH_MEASURE(1.E999)", False),
+                    ("LENGTH_MEASURE('x')", False), ("COUNT_MEASURE(12abc)", False), ("COUNT_MEASURE(7.5)", False), ("COUNT_MEASURE(1.)", False),
+                    ("COUNT_MEASURE('1')", False), ("LABEL(12)", False), ("LABEL(x)", False), ("RATIO_MEASURE(.T.)", False), ("COUNT_MEASURE()", False),
+                    ("LENGTH_MEASURE(1.0 2.0)", False)]
+        twd = os.path.join(bdir, "verif-work", "c09-typed-%d" % os.getpid())
+        os.makedirs(twd, exist_ok=True)
+        for lit_, good_ in tp_cases:
+            for form_ in ("attr", "agg"):
+                body_ = ("#1=POINT('p',0.,0.,$);\n#2=HOLDER(%s,#1,$);\n" % lit_) if form_ == "attr" else \
+                        ("#1=POINT('p',0.,0.,$);\n#2=POLY((#1),(1.,2.,3.),('a'),(1),((1)),(.RED.),$,(LABEL('a'),%s),(),(.T.),());\n" % lit_)
+                ftp = os.path.join(twd, "t.p21")
+                open(ftp, "w").write("ISO-10303-21;\nHEADER;\nFILE_DESCRIPTION(('d'),'2;1');\nFILE_NAME('f','2020-01-01T00:00:00',('a'),('o'),'p','s','a');\n"
+                                     "FILE_SCHEMA(('VERIF_ALL'));\nENDSEC;\nDATA;\n" + body_ + "ENDSEC;\nEND-ISO-10303-21;\n")
+                rct, ot, et = sh([hfile_, "read", ftp, "dump", "-"], timeout=60)
+                sevl_ = [l_ for l_ in ot.split("\n") if l_.startswith("SEV read")]
+                fsev_ = int(sevl_[0].split()[3]) if sevl_ else None
+                total += 1
+                kinds_hist["typed"] = kinds_hist.get("typed", 0) + 1
+                if fsev_ is None or (good_ and fsev_ < 3) or (not good_ and fsev_ >= 2):
+                    oracle_fail += 1
+                    res.violation("the typed parameter %s (%s) of a SELECT is read with file severity %s: %s" % (
+                                  lit_, "in a list" if form_ == "agg" else "as the attribute", fsev_, "a well-formed literal is refused" if good_ else "a malformed literal is read without a message"),
+                                  {"literal": lit_, "replay": "%s read <file with #2=HOLDER(%s,#1,$);> dump -" % (hfile_, lit_)})
+        shutil.rmtree(twd, ignore_errors=True)
+    except BuildError as e_:
+        res.violation("build failed: %s" % e_, {"error": str(e_)}, found_input=False)
     # read back what the writer wrote
     rb = [io[k].split()[2] for k in range(len(wv)) if k < len(io) and len(io[k].split()) == 3]
     rc_i, ro = run(exe, ["R %s" % hexs(w + ",") for w in rb])
